@@ -87,8 +87,15 @@ def one(s):
         cp = copy.deepcopy(wn)
         results = []
         kinds = []
+        # the documented way to rerun is a new simulator; reusing the simulator object after a reset must work as well
+        sim = w.sim.WNTRSimulator(wn) if s.get("reuse_sim") else None
         for cyc in range(s.get("cycles", 2)):
-            r, _ = simnet.run_wntr(w, wn, HW_approx=s["hw"])
+            try:
+                r, _ = simnet.run_wntr(w, wn, sim=sim, HW_approx=s["hw"])
+            except Exception as e:
+                if cyc == 0:
+                    raise
+                return {"rerun_exc": "run %d after reset raised %s: %s" % (cyc + 1, type(e).__name__, str(e)[:120]), "scn": s}
             if r.error_code is not None:
                 return None
             results.append(r)
@@ -132,6 +139,7 @@ def main(tier, replay):
             s = netgen.gen(rnd, i + 1)
             s["cycles"] = rnd.choice([1, 2, 2, 3])
             s["epanet"] = rnd.random() < 0.4
+            s["reuse_sim"] = i % 3 == 0
             scns.append(s)
     with cf.ProcessPoolExecutor(max_workers=common.NCPU) as ex:
         outs = [o for o in ex.map(one, scns, chunksize=4) if o is not None]
@@ -139,6 +147,10 @@ def main(tier, replay):
     for o in outs:
         if "exc" in o:
             ck.count("raised")
+            continue
+        if "rerun_exc" in o:
+            ck.violation("C11.reset_reproduces", "%s :: reuse_sim=%s :: %s" % (" ".join(sorted(netgen.features_of(o["scn"]))),
+                                                                            bool(o["scn"].get("reuse_sim")), o["rerun_exc"]), {"scn": o["scn"]})
             continue
         s = o["scn"]
         for k, d in zip(o["kinds"], o["dicts"][1:]):
